@@ -210,8 +210,8 @@ func init() {
 			dests := func(dsize int) []Val {
 				return []Val{
 					VL{VT("absent")},
-					VL{VT("file"), VB(r.Bytes(dsize + 1 + r.Intn(dsize+64)))}, // larger
-					VL{VT("file"), VB(r.Bytes(r.Intn(dsize + 1)))},           // not larger
+					VL{VT("file"), VB(r.Bytes(dsize + 1 + pick(r, []int{0, 0, 1, r.Intn(dsize + 64)})))}, // larger (often by exactly one byte)
+					VL{VT("file"), VB(r.Bytes(pick(r, []int{dsize, dsize - 1, 0, r.Intn(dsize + 1)})))},  // not larger (often exactly as long)
 					VL{VT("same")},
 				}
 			}
@@ -258,8 +258,14 @@ func init() {
 			}
 
 			// ---------------- round trip ----------------
-			for _, d := range []Val{VL{VT("absent")}, VL{VT("file"), VB(r.Bytes(len(payload) + 60 + r.Intn(3000)))}, VL{VT("same")}} {
-				o := randOpts(fileSeek)
+			for _, d := range []Val{VL{VT("absent")}, VL{VT("file"), VB(r.Bytes(len(payload) + 1 + pick(r, []int{0, 59, r.Intn(3000)})))}, VL{VT("same")}} {
+				o := fileOpts
+				if r.Chance(30) {
+					o = randOpts(fileSeek) // may make the wrap fail: then nothing is claimed
+				} else {
+					o.storeID = r.Chance(30)
+					o.codec = pick(r, []uint64{0, 0x0400, 0x0401})
+				}
 				in := VL{o.val(), VB(payload), d, tabFor(payload, true), VN(chunkFor(r, len(payload)))}
 				obs := runRtripImpl(c, o, payload, d)
 				c.Emit("xrtrip", in, obs, nt && string(obs.(VL)[0].(VT)) == "nil")
@@ -365,12 +371,16 @@ func init() {
 			c.CountN("malformed:extract-other", 7)
 
 			// wrap: prefixes, byte corruptions, null padding, lengths past the end, CARv2 source
+			huge := len(payload) > 100000 // thorough tier only: keep the case file within bounds
 			nPre := 8
 			if c.Thorough || len(payload) < 120 {
 				nPre = len(payload)
 				if nPre > 400 {
 					nPre = 400
 				}
+			}
+			if huge {
+				nPre = 2
 			}
 			for t := 0; t < nPre; t++ {
 				cut := r.Intn(len(payload))
@@ -386,7 +396,11 @@ func init() {
 				emitWrap(o, mode, payload[:cut], none, false)
 				c.Count("malformed:wrap-prefix")
 			}
-			for t := 0; t < 10; t++ {
+			nCorrupt := 10
+			if huge {
+				nCorrupt = 2
+			}
+			for t := 0; t < nCorrupt; t++ {
 				f := append([]byte{}, payload...)
 				f[r.Intn(len(f))] ^= pick(r, []byte{0x01, 0x80, 0xff, 0x7f})
 				emitWrap(randOpts(memMaxSeek), 0, f, none, false)
